@@ -29,7 +29,7 @@ META = {
 }
 
 KNOWN_PUSH0 = "venom-revert-postamble-push0-pre-shanghai"
-STATIC = ["C16/Asm.v", "C16/HexBytes.v", "C16/InstrBridge.v", "C16/PushProofs.v", "C16/AsmProofs.v", "C16/EvmOpcodes.v"]
+STATIC = ["C16/Asm.v", "C16/HexBytes.v", "C16/InstrBridge.v", "C16/PushProofs.v", "C16/AsmProofs.v", "C16/DecodeProofs.v", "C16/EvmOpcodes.v"]
 
 
 # ------------------------------------------------------------------ real side helpers
